@@ -69,12 +69,23 @@ impl Shadow {
         cmp(IO2_LO, &cpu.bus.io_registrs2, &mut self.io2);
         out
     }
+    /// every non-zero byte; zero bytes in gaps of up to 512 bytes between two non-zero bytes of one region are
+    /// listed too, so that an image becomes a few long runs (the specification looks addresses up run by run)
     fn nonzero_pokes(&self) -> Vec<(u32, u8)> {
         let mut v = Vec::new();
         let mut add = |lo: u32, s: &Vec<u8>| {
+            let mut last: Option<usize> = None;
             for (i, b) in s.iter().enumerate() {
                 if *b != 0 {
+                    if let Some(l) = last {
+                        if i - l <= 512 {
+                            for j in l + 1..i {
+                                v.push((lo + j as u32, 0));
+                            }
+                        }
+                    }
                     v.push((lo + i as u32, *b));
+                    last = Some(i);
                 }
             }
         };
@@ -118,6 +129,7 @@ struct Log {
     sums: Vec<u32>, // state_sum after every iteration (silent tuning runs only; below 2^32)
     lite: bool, // long runs: no whole-memory diff, periodic `snap` events so that the trace can be validated in shards
     pend_at_exit: bool,
+    snap_every: u64, // full-mode runs: a `snap` event with the WHOLE memory every n iterations (0 = never)
 }
 fn mix(h: u64, x: u64) -> u64 {
     (h ^ x).wrapping_mul(0x100000001b3).rotate_left(13)
@@ -209,9 +221,26 @@ impl Log {
                            self.id, pc_before >> 16, pc_before & 0xffff, opcode, state, sum_pair(cpu.vh_state_sum()), j_u32s(&regs.vec19()), j_bytes(&cpu.vh_pending()),
                            j_msgs(&msgs), j_bytes(&con), j_pairs(&wr), j_bytes(&dr), cpu.bus.read(0xffff88).unwrap_or(0), cpu.bus.read(0xffff82).unwrap_or(0));
         self.emit(line);
+        if !self.lite && self.snap_every > 0 && self.iters % self.snap_every == 0 {
+            let pokes = self.shadow.as_ref().map(|s| s.nonzero_pokes()).unwrap_or_default();
+            let line = format!("{{\"k\":\"snap\",\"id\":{},\"bg\":\"zero\",\"pre\":{},\"pk\":{},\"pend\":{},\"sum\":{},\"exit\":[{},{}]}}",
+                               self.id, j_u32s(&regs.vec19()), j_runs(&pokes), j_bytes(&cpu.vh_pending()), sum_pair(cpu.vh_state_sum()), self.exit_addr >> 16, self.exit_addr & 0xffff);
+            self.emit(line);
+        }
         if self.lite && self.iters % 4000 == 0 {
-            let line = format!("{{\"k\":\"snap\",\"id\":{},\"bg\":\"zero\",\"pre\":{},\"pk\":[],\"pend\":{},\"sum\":{},\"exit\":[{},{}]}}",
-                               self.id, j_u32s(&regs.vec19()), j_bytes(&cpu.vh_pending()), sum_pair(cpu.vh_state_sum()), self.exit_addr >> 16, self.exit_addr & 0xffff);
+            // lite snapshots carry the peripheral registers only (ports, timer): enough to resume their models
+            let mut pk: Vec<(u32, u8)> = Vec::new();
+            for i in 0..11u32 {
+                pk.push((0xfee000 + i, cpu.bus.read(0xfee000 + i).unwrap_or(0)));
+            }
+            for i in 0..9u32 {
+                pk.push((0xffff80 + i, cpu.bus.read(0xffff80 + i).unwrap_or(0)));
+            }
+            for i in 0..11u32 {
+                pk.push((0xffffd0 + i, cpu.bus.read(0xffffd0 + i).unwrap_or(0)));
+            }
+            let line = format!("{{\"k\":\"snap\",\"id\":{},\"bg\":\"zero\",\"pre\":{},\"pk\":{},\"pend\":{},\"sum\":{},\"exit\":[{},{}]}}",
+                               self.id, j_u32s(&regs.vec19()), j_runs(&pk), j_bytes(&cpu.vh_pending()), sum_pair(cpu.vh_state_sum()), self.exit_addr >> 16, self.exit_addr & 0xffff);
             self.emit(line);
         }
     }
@@ -280,13 +309,18 @@ pub fn run_program(p: &Program, elf_path: &str, log: Option<&str>, schedule: Vec
 }
 #[allow(clippy::too_many_arguments)]
 pub fn run_program_x(p: &Program, elf_path: &str, log: Option<&str>, schedule: Vec<Vec<String>>, max_iters: u64, extra_polls: usize, rng: &mut Rng, first_id: u64, lite: bool) -> Result<RunSummary> {
+    let file = elf_of(p, rng);
+    std::fs::write(elf_path, &file)?;
+    run_elf(elf_path, &p.args, log, schedule, max_iters, extra_polls, first_id, lite, 0)
+}
+/// Execute an ELF file through elf::load + Cpu::run.
+#[allow(clippy::too_many_arguments)]
+pub fn run_elf(elf_path: &str, prog_args: &str, log: Option<&str>, schedule: Vec<Vec<String>>, max_iters: u64, extra_polls: usize, first_id: u64, lite: bool, snap_every: u64) -> Result<RunSummary> {
     *emu::setting::ENABLE_PRINT_OPCODE.write().unwrap() = false;
     *emu::setting::ENABLE_PRINT_MESSAGES.write().unwrap() = false;
     *emu::setting::ENABLE_WAIT_START.write().unwrap() = false;
-    let file = elf_of(p, rng);
-    std::fs::write(elf_path, &file)?;
     let mut cpu = Cpu::new();
-    emu::elf::load(elf_path.to_string(), &mut cpu, p.args.clone());
+    emu::elf::load(elf_path.to_string(), &mut cpu, prog_args.to_string());
     let (out_tx, _out_rx) = mpsc::channel::<String>();
     let (in_tx, in_rx) = mpsc::channel::<String>();
     cpu.vh_attach_socket(Socket::from_channels(out_tx, in_rx));
@@ -297,7 +331,7 @@ pub fn run_program_x(p: &Program, elf_path: &str, log: Option<&str>, schedule: V
     };
     let lg = Rc::new(RefCell::new(Log {
         w, id: first_id, shadow: None, schedule, poll_no: 0, batch: Vec::new(), in_tx, iters: 0, max_iters, stop_sent: false, exit_addr: cpu.exit_addr,
-        h_pcst: 0, h_msgs: 0, n_msgs: 0, extra_polls_after_schedule: extra_polls, log_every_poll: false, sums: Vec::new(), lite, pend_at_exit: false,
+        h_pcst: 0, h_msgs: 0, n_msgs: 0, extra_polls_after_schedule: extra_polls, log_every_poll: false, sums: Vec::new(), lite, pend_at_exit: false, snap_every,
     }));
     let (l1, l2, l3) = (lg.clone(), lg.clone(), lg.clone());
     verif_hooks::set_on_poll(Some(Box::new(move |c: &mut Cpu| l1.borrow_mut().on_poll(c))));
@@ -755,6 +789,38 @@ pub fn run_run_program(args: &Args) -> Result<()> {
     }
     let _ = std::fs::remove_file(&elf_path);
     eprintln!("{{\"driver\":\"run-program\",\"events\":{},\"programs\":{},\"runs\":{}}}", total_events, nprog, nprog * 5);
+    Ok(())
+}
+
+// ------------------------------------------------------------------------------------------------
+// C13 (and every instruction property at once): the repository's own example programs - compiler
+// output linked against the MES run-time - through elf::load + Cpu::run, every iteration logged with
+// the whole-memory diff and validated instruction by instruction; full snapshots allow sharding.
+// ------------------------------------------------------------------------------------------------
+pub fn run_example_run(args: &Args) -> Result<()> {
+    let outdir = args.req("out")?.to_string();
+    let repo = args.get("repo").unwrap_or("/repo").to_string();
+    let tier = args.get("tier").unwrap_or("quick").to_string();
+    std::fs::create_dir_all(&outdir)?;
+    *CONSOLE.lock().unwrap() = Some(ConsoleCapture::install(std::path::Path::new(&format!("{}/console.bin", outdir)))?);
+    let budget: u64 = if tier == "thorough" { 60_000 } else { 2_400 };
+    let snap: u64 = 300;
+    let mut names: Vec<String> = std::fs::read_dir(format!("{}/example", repo))?
+        .filter_map(|e| e.ok())
+        .map(|e| e.file_name().to_string_lossy().to_string())
+        .filter(|n| n.ends_with(".elf"))
+        .collect();
+    names.sort();
+    let mut total = 0u64;
+    let mut nprog = 0;
+    for (i, n) in names.iter().enumerate() {
+        let log = format!("{}/thr_run_ex{:02}.ndjson", outdir, i);
+        let s = run_elf(&format!("{}/example/{}", repo, n), if i % 2 == 0 { "" } else { "one two" }, Some(&log), vec![], budget, 0, 0, false, snap)?;
+        eprintln!("example {} -> {} after {} iterations, {} states", n, s.res, s.iters, s.sum);
+        total += s.events;
+        nprog += 1;
+    }
+    eprintln!("{{\"driver\":\"example-run\",\"events\":{},\"programs\":{}}}", total, nprog);
     Ok(())
 }
 
